@@ -29,6 +29,29 @@ CONFIG_H = '''#pragma once
 class BuildError(Exception):
     pass
 
+def _feature_macros(repo):
+    """HAVE_<FUNCTION> macros as the project's OWN build description decides them: every function named in a `funcs` list of meson.build
+    (`cc.has_function(f)` -> HAVE_<F>) that the C library of this machine provides (link test, as meson does it).  The fixed text above is what the
+    unchanged tree needs; a working tree that adds a feature test (seeded change C16-12: `uselocale`) must be built WITH the code that test enables,
+    or every check verifies a library nobody ships.  On the unchanged tree this adds nothing."""
+    import re
+    try: txt = open(os.path.join(repo, 'meson.build')).read()
+    except OSError: return ''
+    names = []
+    for m in re.finditer(r'^\s*funcs\s*\+?=\s*\[(.*?)\]', txt, re.S | re.M):
+        names += re.findall(r"'([A-Za-z_]\w*)'", m.group(1))
+    out = ''
+    for f in dict.fromkeys(names):
+        macro = 'HAVE_' + re.sub(r'\W', '_', f).upper()
+        if re.search(r'#define %s\b' % macro, CONFIG_H): continue
+        try:
+            ok = subprocess.run(['clang-14', '-x', 'c', '-', '-o', '/dev/null', '-w'], input='char %s(); int main(void) { return %s(); }\n' % (f, f),
+                                capture_output=True, text=True, timeout=60).returncode == 0
+        except Exception: ok = False
+        if ok: out += '#define %s 1\n' % macro
+    return out
+CONFIG_H += _feature_macros(REPO)
+
 def run(cmd, **kw):
     p = subprocess.run(cmd, capture_output=True, text=True, **kw)
     if p.returncode != 0:
